@@ -19,6 +19,8 @@ import (
 
 var c19Tags = []string{".", "@x", "a", "a/b", "count(a)", "'s'", "1 div 0", "0 div 0", "//b", "$v", "$unbound", "((", "name()", "position()", "last()", "..", "string-length(.)", "-1.5", "300", "true()", "*", "node()", "a[1]", "''", "-7", "70000", "2.5", "1e3", "text()", "$ns",
 	// magnitudes around the limits of the 32- and 64-bit integer kinds
+	// reverse axes: slice fields get their elements in result order (nearest first)
+	"ancestor-or-self::*", "preceding::*", "preceding-sibling::*",
 	"18000000000000000000", "9223372036854775808", "-9223372036854775808", "9223372036854774784", "4294967296", "-2147483649", "18446744073709549568"}
 
 type c19Leaf struct {
@@ -239,6 +241,8 @@ func callUnmarshal(res xsel.Result, target interface{}, settings []xsel.ContextA
 			panicked = fmt.Sprint(r)
 		}
 	}()
+	slot := run.Enter("Unmarshal", fmt.Sprintf("%T", target))
+	defer run.Leave(slot)
 	return xsel.Unmarshal(res, target, settings...), ""
 }
 
@@ -429,7 +433,8 @@ func C19(c *run.Check) {
 		}
 		if j.g == 0 {
 			for k := 0; k <= 3 && k <= len(elems); k++ {
-				for _, rev := range []bool{false, true} {
+				for _, variant := range []int{0, 1, 2} {
+					rev, dup := variant == 1, variant == 2
 					ns := xsel.NodeSet{}
 					for i := 0; i < k; i++ {
 						ns = append(ns, elems[i])
@@ -439,6 +444,13 @@ func C19(c *run.Check) {
 							ns[l], ns[r] = ns[r], ns[l]
 						}
 					}
+					if dup && k > 0 {
+						ns = append(ns, ns[0]) // the same node twice: two elements
+					}
+					// the expectation is computed first, from a copy: the call must not
+					// be able to influence it through the caller's slice
+					want, status := env.expected(reflect.SliceOf(ft), append(xsel.NodeSet{}, ns...), 0)
+					given := append(xsel.NodeSet{}, ns...)
 					sl := reflect.New(reflect.SliceOf(ft))
 					c.Evaluations.Add(1)
 					uerr, pan := callUnmarshal(ns, sl.Interface(), settings)
@@ -446,7 +458,12 @@ func C19(c *run.Check) {
 						report("slice", d, fmt.Sprint(k, " nodes"), "[]"+ft.String(), "", "PANIC: "+pan)
 						return
 					}
-					want, status := env.expected(reflect.SliceOf(ft), ns, 0)
+					for i := range given {
+						if ns[i] != given[i] {
+							report("slice", d, fmt.Sprint(k, " nodes"), "[]"+ft.String(), "", "Unmarshal rearranged the caller's node-set")
+							return
+						}
+					}
 					switch status {
 					case stErr:
 						if uerr == nil {
@@ -540,7 +557,7 @@ func C19(c *run.Check) {
 	c.Sample(map[string]string{"target": "struct{F uint8 `xsel:\"-1.5\"`}", "doc": docs[2].String()})
 	c.Set("field_types", len(ftypes))
 	c.Set("tags", len(tags))
-	c.Rule = fmt.Sprintf("target types built with reflect.StructOf/SliceOf/PointerTo: %d field/element types (string, bool, every int/uint width, floats, slices of scalars/structs/pointers, nested structs, pointer chains, the unsupported kinds map/array/chan/func/interface/[][]T/complex/uintptr, and defined types of supported kinds - for those an error or the converted value is accepted, a panic is not) x %d tag expressions (node-sets of 0/1/many nodes, numbers incl. NaN/Inf/negative/out of range, strings, booleans, variables, unbound variable, syntax error) x every element node of 3 documents, as *T and **T; slice targets over node-sets of 0-3 nodes in both orders; 36 ill-shaped targets/results (nil, non-pointers, nil pointers, unexported tagged fields ...). Expected values come from separate Exec calls and the statement's conversion table (numeric fields only compared when the double is representable in the field type); never a panic; untagged fields untouched. non-trivial = distinct (type, tag, filled value)", len(ftypes), len(tags))
+	c.Rule = fmt.Sprintf("target types built with reflect.StructOf/SliceOf/PointerTo: %d field/element types (string, bool, every int/uint width, floats, slices of scalars/structs/pointers, nested structs, pointer chains, the unsupported kinds map/array/chan/func/interface/[][]T/complex/uintptr, and defined types of supported kinds - for those an error or the converted value is accepted, a panic is not) x %d tag expressions (node-sets of 0/1/many nodes, numbers incl. NaN/Inf/negative/out of range, strings, booleans, variables, unbound variable, syntax error) x every element node of 3 documents, as *T and **T; slice targets over node-sets of 0-3 nodes in both orders and with a node repeated (the caller's node-set must come back as given); 36 ill-shaped targets/results (nil, non-pointers, nil pointers, unexported tagged fields ...). Expected values come from separate Exec calls and the statement's conversion table (numeric fields only compared when the double is representable in the field type); never a panic; untagged fields untouched. non-trivial = distinct (type, tag, filled value)", len(ftypes), len(tags))
 	c.Assume("Exec itself is verified by C01-C07; Go leaves float->int conversion of unrepresentable values implementation-defined, those are only required not to panic")
 }
 
